@@ -870,3 +870,92 @@ Proof.
                 (zone_spread_ok_le _ Hz) ltac:(lia)). lia.
 Qed.
 Print Assumptions C08_answers_every_window_after_anchor.
+
+(* ------------------------------------------------------------------------------------------ *)
+(* the hypotheses are satisfiable; the positive length cannot be dropped                       *)
+From CG Require Props.C13.
+
+Example zone_wf_satisfiable :
+  forallb zone_wf
+          [CG.Props.C13.la; CG.Props.C13.havana; CG.Props.C13.chatham; CG.Props.C13.troll;
+           CG.Props.C13.st_johns_2005; utc_zone] = true.
+Proof. vm_compute. reflexivity. Qed.
+
+(* C08_reverse_exact / C08_reverse_is_rev_forward_exact are not vacuous: the every-other-week rule
+   of RecurExact2.v (Los Angeles, one excluded start) over the first half of 2024 — three chunks
+   of twelve weeks; the reverse answer is the specification's list reversed, 26 occurrences *)
+Example C08_reverse_exact_instance :
+  let r := ex_weekly in
+  lists_ok r /\ 0 < r_interval r /\ rule_accepted r /\ zone_spread_ok (r_zone r) = true /\
+  Forall (fun i => fstart i < fend i) (spec_occurrences r 1704000000 1720000000) /\
+  1704000000 < 1720000000 /\
+  exists lf lr, fetch_forward r 1704000000 1720000000 = Ok lf /\
+                fetch_reverse r 1704000000 1720000000 = Ok lr /\
+                lr = rev lf /\ length lr = 26%nat.
+Proof.
+  cbv zeta. destruct ex_weekly_ok as (Hok & _ & Hk & Hacc & Hz & Hdur).
+  repeat (split; [assumption|]).
+  split; [apply spec_pos_of_occ_pos, occ_positive_wf; [vm_compute; reflexivity|cbn; lia]|].
+  split; [lia|]. do 2 eexists.
+  split; [vm_compute; reflexivity|]. split; [vm_compute; reflexivity|].
+  split; reflexivity.
+Qed.
+
+(* a daily rule at 09:00 Los Angeles time for one hour, no anchor *)
+Definition ex_daily : rule := mkRule Daily 1 [] [] [] [] [] None 32400 3600 CG.Props.C13.la.
+
+Lemma ex_daily_matches d : matches ex_daily d = true.
+Proof.
+  unfold matches, matches_s, cdate_of. destruct (civil_from_days d) as [[y m] dd].
+  unfold in_phase. cbn [series_of series_from ex_daily r_freq r_interval e_freq e_interval
+                         e_base_period period_of].
+  rewrite Z.mod_1_r. reflexivity.
+Qed.
+
+(* C08_answers_every_window_after_anchor is not vacuous: this rule answers EVERY window a < b,
+   in both directions, exactly *)
+Example C08_answers_every_window_instance : forall a b, a < b ->
+  fetch_forward ex_daily a b = Ok (spec_occurrences ex_daily a b) /\
+  fetch_reverse ex_daily a b = Ok (rev (spec_occurrences ex_daily a b)).
+Proof.
+  intros a b Hab.
+  apply C08_answers_every_window_after_anchor.
+  - apply simple_lists_ok; reflexivity.
+  - cbn; lia.
+  - unfold rule_accepted; cbn; unfold DAY; lia.
+  - vm_compute; reflexivity.
+  - cbn; lia.
+  - apply spec_pos_of_occ_pos, occ_positive_wf; [vm_compute; reflexivity|cbn; lia].
+  - exact Hab.
+  - left; reflexivity.
+  - intros b' _. exists (local_day (r_zone ex_daily) b' + 2).
+    split; [apply ex_daily_matches|]. split; [unfold SLACK_DAYS; lia|reflexivity].
+Qed.
+
+(* The positive length cannot be dropped.  RecurringPattern.__init__ / recurring() do not check
+   duration > 0 (only time_of_day() does): with duration = 0 the occurrence lying exactly on a
+   chunk edge is skipped by the newer chunk's forward fetch (end <= chunk start) and dropped from
+   the older chunk by the per-chunk filter (start < current_end fails), so the reverse fetch
+   loses it.  Daily at 00:00 UTC, duration 0, window 2023-12-31T23:43:20Z .. 2024-03-01T00:00Z:
+   61 occurrences forward, 59 in reverse (those of 2024-01-31 and 2024-01-01 are lost).
+   Python (observed on /repo):
+     p = recurring(freq="daily", duration=0, tz="UTC"); a, b = 1704066200, 1709251200
+     len(list(p.fetch(a, b))) == 61, len(list(p.fetch(a, b, reverse=True))) == 59
+   (slicing p[a:b] drops empty intervals in both directions, so only fetch() shows it). *)
+Theorem C08_reverse_exact_zero_duration_refuted :
+  exists r a b lf lr,
+    lists_ok r /\ 0 < r_interval r /\ rule_accepted r /\ zone_spread_ok (r_zone r) = true /\
+    r_dur r = 0 /\ a < b /\
+    fetch_forward r a b = Ok lf /\ fetch_reverse r a b = Ok lr /\
+    length lf = 61%nat /\ length lr = 59%nat /\ lr <> rev lf.
+Proof.
+  exists (mkRule Daily 1 [] [] [] [] [] None 0 0 utc_zone), 1704066200, 1709251200.
+  do 2 eexists.
+  split; [apply simple_lists_ok; reflexivity|]. split; [cbn; lia|].
+  split; [unfold rule_accepted; cbn; unfold DAY; lia|]. split; [reflexivity|].
+  split; [reflexivity|]. split; [lia|].
+  split; [vm_compute; reflexivity|]. split; [vm_compute; reflexivity|].
+  split; [reflexivity|]. split; [reflexivity|].
+  intros H. apply (f_equal (@length ivl)) in H. rewrite rev_length in H. vm_compute in H. discriminate.
+Qed.
+Print Assumptions C08_reverse_exact_zero_duration_refuted.
